@@ -17,7 +17,6 @@ static PROMOTION_PIECES: [PromotionPiece; 4] = [
 #[derive(Clone)]
 pub struct MoveGen {
     moves: MoveList,
-    promotions: core::slice::Iter<'static, PromotionPiece>,
     mask: BitBoard,
     index: usize,
 }
@@ -29,13 +28,30 @@ struct LegalMovesAt {
     src: Pos,
     moves: BitBoard,
     promotion: bool,
+    /// for promotion entries: which of the `PROMOTION_PIECES` were already yielded (or removed)
+    /// for each of the (at most three) destinations, indexed by `dest.file + 1 - src.file`.
+    /// A destination is cleared from `moves` once all of its pieces are used.
+    promoted: [u8; 3],
+}
+
+const ALL_PROMOTIONS_USED: u8 = (1 << PROMOTION_PIECES.len()) - 1;
+
+impl LegalMovesAt {
+    #[inline]
+    fn promotion_slot(&self, dest: Pos) -> usize {
+        usize::from(dest.file() as u8 + 1 - self.src.file() as u8)
+    }
+
+    #[inline]
+    fn promotions_left(&self, dest: Pos) -> usize {
+        PROMOTION_PIECES.len() - self.promoted[self.promotion_slot(dest)].count_ones() as usize
+    }
 }
 
 impl Board {
     pub fn legals(&self) -> MoveGen {
         MoveGen {
             moves: self.collect_moves(!BitBoard::empty()),
-            promotions: PROMOTION_PIECES.iter(),
             mask: !BitBoard::empty(),
             index: 0,
         }
@@ -44,7 +60,6 @@ impl Board {
     pub fn legals_masked(&self, mask: BitBoard) -> MoveGen {
         MoveGen {
             moves: self.collect_moves(mask),
-            promotions: PROMOTION_PIECES.iter(),
             mask,
             index: 0,
         }
@@ -53,7 +68,6 @@ impl Board {
     pub fn king_legals(&self, turn: Color) -> MoveGen {
         MoveGen {
             moves: self.collect_king_moves(turn),
-            promotions: PROMOTION_PIECES.iter(),
             mask: !BitBoard::empty(),
             index: 0,
         }
@@ -128,16 +142,17 @@ impl MoveGen {
     }
 
     pub fn len(&self) -> usize {
-        const NUM_PROMOTION_PIECES: usize = 4;
-
         let mut len = 0;
 
         for legals in &self.moves[self.index..] {
-            let count = (legals.moves & self.mask).count() as usize;
+            let moves = legals.moves & self.mask;
             len += if legals.promotion {
-                count * NUM_PROMOTION_PIECES
+                moves
+                    .iter()
+                    .map(|dest| legals.promotions_left(dest))
+                    .sum::<usize>()
             } else {
-                count
+                moves.count() as usize
             };
         }
 
@@ -156,7 +171,25 @@ impl MoveGen {
         // a pawn can have two entries: its normal moves and an en-passant capture
         let mut removed = false;
         for legals in &mut self.moves {
-            if legals.src == chess_move.source && legals.moves.contains(chess_move.dest) {
+            if legals.src != chess_move.source || !legals.moves.contains(chess_move.dest) {
+                continue;
+            }
+
+            if legals.promotion {
+                // only the requested promotion piece is removed
+                let Some(piece) = chess_move.piece else {
+                    continue
+                };
+                let Some(piece) = PROMOTION_PIECES.iter().position(|&p| p == piece) else {
+                    continue
+                };
+                let slot = legals.promotion_slot(chess_move.dest);
+                removed |= legals.promoted[slot] & (1 << piece) == 0;
+                legals.promoted[slot] |= 1 << piece;
+                if legals.promoted[slot] == ALL_PROMOTIONS_USED {
+                    legals.moves -= chess_move.dest;
+                }
+            } else if chess_move.piece.is_none() {
                 legals.moves -= chess_move.dest;
                 removed = true;
             }
@@ -206,28 +239,24 @@ impl Iterator for MoveGen {
         let legal = &mut self.moves[self.index];
 
         if legal.promotion {
-            let &promotion = self.promotions.next().unwrap();
-
             let mut moves = legal.moves & self.mask;
             let dest = unsafe { moves.pop_unchecked() };
 
-            let result = ChessMove {
-                source: legal.src,
-                dest,
-                piece: Some(promotion),
-            };
+            // the first piece that wasn't used yet for this destination,
+            // there is always one because exhausted destinations are cleared
+            let slot = legal.promotion_slot(dest);
+            let piece = (!legal.promoted[slot]).trailing_zeros() as usize;
+            legal.promoted[slot] |= 1 << piece;
 
-            if self.promotions.len() == 0 {
-                self.promotions = PROMOTION_PIECES.iter();
-
+            if legal.promoted[slot] == ALL_PROMOTIONS_USED {
                 legal.moves.clear(dest);
-
-                if (moves & self.mask).none() {
-                    self.index += 1;
-                }
             }
 
-            Some(result)
+            Some(ChessMove {
+                source: legal.src,
+                dest,
+                piece: Some(PROMOTION_PIECES[piece]),
+            })
         } else {
             let mut possible_moves = legal.moves & self.mask;
             let dest = unsafe { possible_moves.pop_unchecked() };
